@@ -296,7 +296,7 @@ def _guard(what, fn, sig):
         import traceback
         tb = traceback.extract_tb(e.__traceback__)
         where = next((f"{os.path.basename(f.filename)}:{f.name}" for f in reversed(tb)
-                      if "/repo/spatialpandas/" in f.filename), "?")
+                      if seams.SP_DIR in f.filename), "?")
         sig["where"] = where
         raise Bad(f"exception@{where}", f"{what} raised {type(e).__name__}: {str(e)[:200]} "
                   f"(in {where})") from None
